@@ -189,6 +189,19 @@ Proof.
   destruct Hx as [E|[E|[E|[E|[]]]]]; subst x; vm_compute; discriminate.
 Qed.
 
+(* partition OUTSIDE its contract ("the label *must* be a common prefix of all nodes in the set",
+   append_only_zks.rs): with elements that do not extend the label the two representations
+   differ - the search form keeps them at both ends.  This is why C17_set_partition carries the
+   premise, and why the harness's oracle compares the forms on extending elements only. *)
+Example C17_partition_forms_differ_outside_contract :
+  let e b := El (NL (b :: zeros 31) 8) [] in
+  let l := [e 16; e 83; e 95; e 128] in let pl := NL (80 :: zeros 31) 4 in
+  eset_list (fst (eset_partition (BinarySearchable l) pl)) = [e 16; e 83] /\
+  eset_list (fst (eset_partition (Unsorted l) pl)) = [e 83] /\
+  eset_list (snd (eset_partition (BinarySearchable l) pl)) = [e 95; e 128] /\
+  eset_list (snd (eset_partition (Unsorted l) pl)) = [e 95].
+Proof. vm_compute. repeat split; reflexivity. Qed.
+
 Theorem C17_bits_roundtrip : (forall bs, (length bs <= 256)%nat -> bits_of (nl_of_bits bs) = bs) /\
   (forall a, WF a -> canonical a = true -> nl_of_bits (bits_of a) = a).
 Proof. exact (conj bits_of_nl_of_bits nl_of_bits_bits_of). Qed.
